@@ -24,8 +24,8 @@ m("c01-empty-plain-scalar-ok", "C01", SC,
   "        if string.is_empty() && self.flow_level == 0 {\n            // `fetch_plain_scalar` must",
   "the historic infinite loop: an empty plain scalar in flow context is a zero-progress token")
 m("c01-docindicator-lookahead3", "C01", SC,
-  "        loop {\n            self.input.lookahead(4);\n            if (self.leading_whitespace && self.input.next_is_document_indicator())",
-  "        loop {\n            self.input.lookahead(3);\n            if (self.leading_whitespace && self.input.next_is_document_indicator())",
+  "            self.input.lookahead(4);\n            if (self.leading_whitespace && self.input.next_is_document_indicator())",
+  "            self.input.lookahead(3);\n            if (self.leading_whitespace && self.input.next_is_document_indicator())",
   "dropped look-ahead: assert!(buflen >= 4) / peek_nth(3) past the buffer, invisible with StrInput")
 m("c01-skip-linebreak-no-lookahead", "C01", SC,
   "                '\\n' | '\\r' => {\n                    self.input.lookahead(2);\n                    self.skip_linebreak();\n                    if self.flow_level == 0 {\n                        self.allow_simple_key();\n                    }\n                }\n                '#' => {\n                    let comment_length",
